@@ -417,6 +417,12 @@ pub fn c17(out: &mut dyn Write, tier: &str, rng: &mut Rng, st: &mut Stats) {
     }
     // root 4 (and 5 in the thorough tier): numbers of two digits; structure only (4096 variables)
     cases.push((4, String::new()));
+    // root 4 with givens: puzzles cut out of the grid (row mod 4) * 4 + row / 4 + col (mod 16) + 1 — the cells that hold
+    // a number of one digit, some of them kept
+    for keep in [2u64, 5, 9] {
+        let s: String = (0..256usize).map(|c| { let v = ((c / 16 % 4) * 4 + c / 16 / 4 + c % 16) % 16 + 1; if v <= 9 && rng.below(10) < keep { char::from_digit(v as u32, 10).unwrap() } else { '.' } }).collect();
+        cases.push((4, s));
+    }
     cases.push((4, "1..4...........G".to_string() + &".".repeat(230) + "7.3......9"));
     if tier == "thorough" { cases.push((5, "12345".to_string())); cases.push((4, "9".repeat(256))); }
     for (root, puzzle) in cases {
